@@ -62,7 +62,6 @@ pub fn prop() -> HistProp {
     rc.regions = true;
     rc.flush_each = true;
     rc.fsck_kinds = vec![Fk::FatRange, Fk::Cycle, Fk::CrossLink, Fk::Lost, Fk::SizeChain, Fk::DotEntries, Fk::AfterEnd, Fk::LfnRun, Fk::Orphan];
-    rc.known.dst_inside_src = true;
     rc.budget_per_op = 3_000_000;
     let mut gc = GenCfg::fileio();
     gc.max_ops = 14;
